@@ -17,6 +17,7 @@ func init() {
 		ruleDef{"C15.R1", c15r1},
 		ruleDef{"C15.R2", c15r2},
 		ruleDef{"C15.R3", c15r3},
+		ruleDef{"C15.R4", c15r4},
 	)
 }
 
@@ -173,4 +174,69 @@ func flagRegisteredAs(c *Ctx, initFlags *ssa.Function, name string) string {
 		}
 	})
 	return out
+}
+
+// R4: the on/off switch reaches the flag from the environment/command line unchanged.
+func c15r4(r *R) {
+	c := r.C
+	initFlags := c.Func("", "initFlags")
+	r.need(initFlags != nil, "initFlags not found")
+	o := r.Ob("C15.R4", "flag-default-from-env").At(initFlags.Pos())
+	found := false
+	eachInstr(initFlags, func(i ssa.Instruction) {
+		st, ok := i.(*ssa.Store)
+		if !ok {
+			return
+		}
+		g, ok := st.Addr.(*ssa.Global)
+		if !ok || g.Name() != "flagEnableKubernetesProbe" {
+			return
+		}
+		found = true
+		o.AtI(i)
+		e := c.Expr(st.Val)
+		o.Check(strings.HasPrefix(e, `flag.Bool("enable-kubernetes-probe", fingerproxy.envWithDefaultBool("ENABLE_KUBERNETES_PROBE", true), `), "the probe switch is registered as %s", e)
+	})
+	o.Check(found, "flagEnableKubernetesProbe is not initialised in initFlags")
+	ef := c.Func("", "envWithDefaultBool")
+	r.need(ef != nil, "envWithDefaultBool not found")
+	o2 := r.Ob("C15.R4", "env-bool-parsing:"+funcName(ef)).At(ef.Pos())
+	// Idiom A: comparisons of the (lower-cased) value with "true"/"false"; idiom B: strconv.ParseBool with err == nil.
+	nRecognised := 0
+	eachInstr(ef, func(i ssa.Instruction) {
+		iff, ok := i.(*ssa.If)
+		if !ok {
+			return
+		}
+		ce := c.Expr(iff.Cond)
+		var want string
+		var edge int
+		switch {
+		case strings.HasPrefix(ce, `("true" == `) && strings.Contains(ce, "os.LookupEnv(p0)#0"):
+			want, edge = "true", 0
+		case strings.HasPrefix(ce, `("false" == `) && strings.Contains(ce, "os.LookupEnv(p0)#0"):
+			want, edge = "false", 0
+		case strings.HasPrefix(ce, "(strconv.ParseBool(") && strings.HasSuffix(ce, "#1 != nil)"):
+			want, edge = strings.TrimSuffix(strings.TrimPrefix(ce, "("), "#1 != nil)")+"#0", 1
+		case strings.HasPrefix(ce, "(nil == strconv.ParseBool(") && strings.HasSuffix(ce, "#1)"):
+			want, edge = strings.TrimSuffix(strings.TrimPrefix(ce, "(nil == "), "#1)")+"#0", 0
+		default:
+			return
+		}
+		nRecognised++
+		o2.AtI(i)
+		// from the "recognised" edge every path returns the recognised value (never the default)
+		p := c.escapeFromBlock(ef, iff.Block().Succs[edge], func(ssa.Instruction) bool { return false }, func(j ssa.Instruction) bool {
+			ret, ok := j.(*ssa.Return)
+			return ok && c.Expr(ret.Results[0]) != want
+		})
+		o2.Check(p == nil, "when the environment value is recognised as %s, envWithDefaultBool can still return something else (e.g. the default): an explicit ENABLE_KUBERNETES_PROBE=false would not disable probe answers: %v", want, p)
+	})
+	o2.Check(nRecognised >= 1, "envWithDefaultBool recognises no boolean value (neither \"true\"/\"false\" comparisons nor strconv.ParseBool)")
+	// unset variable -> default
+	eachInstr(ef, func(i ssa.Instruction) {
+		if ret, ok := i.(*ssa.Return); ok && hasGuard(c.guardStrs(i.Block()), "-os.LookupEnv(p0)#1") {
+			o2.Check(c.Expr(ret.Results[0]) == "p1", "with the variable unset envWithDefaultBool returns %s, want the default", c.Expr(ret.Results[0]))
+		}
+	})
 }
